@@ -2,6 +2,7 @@ package model
 
 import (
 	"math"
+	"strconv"
 
 	"github.com/grindlemire/go-lucene/pkg/lucene/expr"
 	"github.com/grindlemire/go-lucene/verif/gen"
@@ -133,9 +134,24 @@ func tokIsLeaf(t MTok, e *expr.Expression, asColumn bool) bool {
 	}
 	switch v.K {
 	case gen.VInt:
+		if asColumn {
+			// a numeric field name is the column named by that number
+			c, ok := e.Left.(expr.Column)
+			return ok && e.Op == expr.Literal && (string(c) == strconv.Itoa(v.I) || string(c) == v.Src)
+		}
 		i, ok := e.Left.(int)
 		return ok && e.Op == expr.Literal && i == v.I
 	case gen.VFloat:
+		if asColumn {
+			c, ok := e.Left.(expr.Column)
+			if !ok || e.Op != expr.Literal {
+				return false
+			}
+			if f, err := strconv.ParseFloat(string(c), 64); err == nil && floatEq(f, v.F) {
+				return true
+			}
+			return string(c) == v.Src
+		}
 		if f, ok := e.Left.(float64); ok && e.Op == expr.Literal && floatEq(f, v.F) {
 			return true
 		}
